@@ -140,6 +140,7 @@ PROPS = {
                     "(incl. while the process is down), expiry cleanup runs, graceful restarts and kills on one real File or RocksDB state "
                     "machine; at every cleanup keys due >= 1 s ago must be gone, keys due >= 1 s ahead and keys whose TTL was cancelled must "
                     "still hold their value; non-trivial = at least one restart"},
+    "C24": {"batches": [B("watch", "watch", 260, 2600), B("general", "general", 60, 600)]},
     "C26": {"batches": [B("exposed_membership", "membership", 160, 1600, masks=["snapshot_install"]),
                         B("general_exposed", "general", 80, 800, masks=["snapshot_install"])]},
     "C27": {"batches": [B("membership", "membership", 180, 1800), B("general", "general", 60, 600)]},
